@@ -210,6 +210,10 @@ fn histories(thorough: bool) -> Vec<Hist> {
     v.push(mk("default", Wl::W6, vec![], vec![(25, Op::Rebind(CLIENT, addr(9))), (25, Op::LocalAddrChanged(CLIENT))], "migrate@25"));
     v.push(mk("nopace", Wl::W6, vec![], vec![(25, Op::Rebind(CLIENT, addr(9))), (25, Op::LocalAddrChanged(CLIENT))], "migrate@25"));
     v.push(mk("nopace", Wl::W2, vec![], vec![(20, Op::KeyUpdate(CLIENT))], "keyupd-c@20"));
+    // endpoint-level responses (stateless resets with their random-looking padding) are part of
+    // the deterministic output too
+    v.push(mk("default", Wl::W1, vec![], vec![(12, Op::Unroutable(SERVER, 1200)), (16, Op::Unroutable(CLIENT, 300)), (40, Op::Unroutable(SERVER, 60))], "unroutable-datagrams"));
+    v.push(mk("cidlife", Wl::W2, vec![], vec![(10, Op::Unroutable(SERVER, 900)), (30, Op::Unroutable(SERVER, 900))], "unroutable-datagrams"));
     // every k=1 deviation history of W1/W2 in the first 30 datagrams
     let n = if thorough { 40 } else { 20 };
     for wl in [Wl::W1, Wl::W2] {
@@ -235,7 +239,7 @@ pub fn main(args: &Args) -> ! {
     let thorough = args.tier == Tier::Thorough;
     let dl = deadline(if thorough { 1200 } else { 45 });
     let hs = histories(thorough);
-    rep.rule = "Differential runs over a list of input histories H (fault-free baselines of several configurations/workloads incl. Retry, CID rotation, key update, NAT rebinding and migration, plus every single-deviation history over the fate alphabet in the first datagrams): (1) H twice -> identical full trace (instant, destination, bytes of every datagram; every event; every timer firing); (2) H with every supplied Instant shifted by 1 s / 1 day / 10 years -> identical trace relative to the base; (3) for EVERY step index j of H a spurious handle_timeout(now) or an extra poll round is inserted -> identical trace; (4) a timer never fires more than 16 consecutive times at one instant; (5) after both sides are drained every datagram of the run is fed again and ten timeouts are delivered -> no transmit, no event, no endpoint event. Non-trivial = a run with a shift or an inserted call; distinct = distinct (history, variant) pairs.".into();
+    rep.rule = "Differential runs over a list of input histories H (fault-free baselines of several configurations/workloads incl. Retry, CID rotation, key update, NAT rebinding, migration and unroutable datagrams that draw stateless resets, plus every single-deviation history over the fate alphabet in the first datagrams): (1) H twice -> identical full trace (instant, destination, bytes of every datagram; every event; every timer firing); (2) H with every supplied Instant shifted by 1 s / 1 day / 10 years -> identical trace relative to the base; (3) for EVERY step index j of H a spurious handle_timeout(now) or an extra poll round is inserted -> identical trace; (4) a timer never fires more than 16 consecutive times at one instant; (5) after both sides are drained every datagram of the run is fed again and ten timeouts are delivered -> no transmit, no event, no endpoint event. Non-trivial = a run with a shift or an inserted call; distinct = distinct (history, variant) pairs.".into();
     // baselines
     let (bres, _) = e3((0..hs.len()).collect::<Vec<_>>(), dl, |&i| run(pbase, &hs, &Run { h: i, shift: Duration::ZERO, extra: None, drained_part: false }));
     let base: Vec<(u64, u64)> = bres.iter().map(|(_, o)| (o.trace, o.steps)).collect();
